@@ -17,6 +17,9 @@ CLAUSE = CLAUSE + (" In vbi_event_enable every reset action (network record, Tel
                    "conditional on the *newly activated* event bits (`activate`), never on the whole mask, so registering another "
                    "handler does not forget the station that was already announced; in xds_decoder a change of the call letters "
                    "re-arms the network name debounce (name cleared together with the cycle).")
+CLAUSE = CLAUSE + (" station_lookup selects a table row by comparing the whole column with the CNI as received (only the VPS "
+                   "column cni4 with the 12 bit code); removing a handler record does not end the list walk whose union of masks "
+                   "gates the announcing decoders.")
 NOT_DECIDED = ("that the event carries exactly the transmitted values (value fidelity), exactly-one event under interleaved "
                "carriers, the XDS carrier's missing `id != nuid` test (XDS is checksum protected and not among the four "
                "carriers the statement quantifies over; recorded as a note).")
@@ -289,6 +292,11 @@ def run(ctx, run):
     _decode_discipline(ctx, run)
     _activation_only(ctx, run)
     _call_letters_rearm(ctx, run)
+    _exact_lookup(ctx, run)
+    # the event mask that gates the announcing decoders is the union over *all* records (rule shared with C11)
+    from . import C11
+    for nm in ("vbi_event_handler_add", "vbi_event_handler_register"):
+        C11._walk_goes_on(ctx, run, P.need(nm, "src/vbi.c"))
     run.floor("NETWORK_ID announcement sites", n_sites["NETWORK_ID"], 4)
     run.floor("NETWORK announcement sites", n_sites["NETWORK"], 4)
     run.floor("vbi_chsw_reset call sites", n_sites["chsw"], 6)
@@ -485,3 +493,59 @@ def _call_letters_rearm(ctx, run):
                           "with the same network name and other call letters is taken for the one already announced, no NETWORK "
                           "event is sent and the old station's cache survives", ex.loc(f, i))
     run.floor("call-letter change sites", n, 1)
+
+
+def _exact_lookup(ctx, run):
+    """RF-CORR: station_lookup() identifies the station by comparing the received CNI with one
+    column of the CNI table.  The row is selected by `p-><column> == cni` on the *whole* column
+    and, for the columns that hold complete codes (cni1, cni2, cni3), on the value as received:
+    a mask on either side makes codes that differ in the masked bits (the country nibble of
+    8/30 format 2) name the same station, so a station change between them raises no event and
+    the wrong network is announced.  Only the VPS column cni4 is compared with the 12 bit code."""
+    P = ctx.prog
+    f = P.need("station_lookup", "src/packet.c")
+    run.touch(f)
+    pname = f.params[1]["name"]
+    stores = [(b, i) for b, i in flow.all_events(f) if any(
+        lhs is not None and f.exprs[ex.skip(f, lhs)]["k"] == "ref" and f.exprs[ex.skip(f, lhs)].get("name") == pname
+        for lhs, var, op, rhs in flow.stores(f, i))]
+    n = 0
+    for bid, b in f.blocks.items():
+        t = b.term
+        if not t or "cond" not in t:
+            continue
+        c = f.exprs[ex.skip(f, t["cond"])]
+        if not (c["k"] == "bin" and c["op"] in ("==", "!=")):
+            continue
+        sides = [ex.skip(f, x) for x in c["c"]]
+        cols = [j for j in sides if any(f.exprs[k]["k"] == "mem" and f.exprs[k].get("in") == "vbi_cni_entry"
+                                        and f.exprs[k]["member"].startswith("cni") for k in ex.walk(f, j))]
+        if not cols:
+            continue
+        n += 1
+        tj = cols[0]
+        oj = [j for j in sides if j != tj][0]
+        col = [f.exprs[k]["member"] for k in ex.walk(f, tj) if f.exprs[k]["k"] == "mem" and f.exprs[k].get("in") == "vbi_cni_entry"][0]
+        key = "RF-CORR:station_lookup:exact:%s" % col
+        te = f.exprs[tj]
+        while te["k"] == "cast":
+            te = f.exprs[ex.skip(f, te["c"][0])]
+        oe = f.exprs[oj]
+        while oe["k"] == "cast":
+            oe = f.exprs[ex.skip(f, oe["c"][0])]
+        problems = []
+        if te["k"] != "mem":
+            problems.append("the table side is `%s`, not the whole column" % ex.pretty(f, tj)[:40])
+        if not (oe["k"] == "ref" and oe.get("name") == pname):
+            problems.append("the received side is `%s`, not the CNI itself" % ex.pretty(f, oj)[:40])
+        if col != "cni4":
+            for sb, si in stores:
+                if bid in flow.reach_from(f, sb):
+                    problems.append("`%s` (line %d) reaches the comparison: the complete code in column %s is compared with a "
+                                    "modified CNI" % (ex.pretty(f, si)[:30], f.exprs[si]["line"], col))
+        if problems:
+            run.violation("RF-CORR", key, "station_lookup: %s - codes differing only in the dropped bits select the same table row "
+                          "(wrong network announced, no event on a change between them)" % "; ".join(problems), ex.loc(f, t["cond"]))
+        else:
+            run.holds("RF-CORR", key, "row selected by `%s` on the unmodified value" % ex.pretty(f, t["cond"])[:40], ex.loc(f, t["cond"]))
+    run.floor("table column comparisons in station_lookup", n, 4)
